@@ -32,6 +32,10 @@ type Obligation struct {
 	Witness   []string `json:"witness,omitempty"`
 	Paths     int      `json:"paths,omitempty"`
 	Trivial   bool     `json:"trivial,omitempty"`
+	// Topic names the mechanism a row belongs to when the function it is anchored in was found by
+	// structure ("removal", "last-ref" …): properties select such rows by topic, not by the name the
+	// function happens to have today.
+	Topic string `json:"topic,omitempty"`
 }
 
 // Ctx is what a rule runs against.
@@ -271,6 +275,33 @@ func (c *Ctx) ordinal(n ast.Node) string {
 		return true
 	})
 	return sprintf("#%d", k+1)
+}
+
+// callOrdinal names a call by its callee and its rank among the calls of that callee in the function:
+// call(Await)#2.
+func (c *Ctx) callOrdinal(call *ast.CallExpr, info *types.Info) string {
+	nameOf := func(x *ast.CallExpr) string {
+		switch f := unparen(x.Fun).(type) {
+		case *ast.SelectorExpr:
+			return f.Sel.Name
+		case *ast.Ident:
+			return f.Name
+		}
+		return "func"
+	}
+	name := nameOf(call)
+	d := c.Prog.EnclosingDecl(call.Pos())
+	if d == nil {
+		return "call(" + name + ")#?"
+	}
+	k := 0
+	ast.Inspect(d.Decl, func(x ast.Node) bool {
+		if y, ok := x.(*ast.CallExpr); ok && y.Pos() < call.Pos() && nameOf(y) == name {
+			k++
+		}
+		return true
+	})
+	return sprintf("call(%s)#%d", name, k+1)
 }
 
 func sameKind(a, b ast.Node) bool {
